@@ -9,10 +9,11 @@ CONSTANTS
   NABad = {"none", "sig"}
   CUFields = {"ok", "maxltmin", "disabled", "capeq", "capplus1"}
   NAFields = {"ok", "twodns"}
-  Funds = {"ok", "noblock", "spent"}
+  Funds = {"ok", "noblock", "spent", "blockfault", "utxofault"}
   Signers = {"n1", "n2", "x"}
   MaxMsgs = 4
+  Chain = FALSE
 VIEW MCView
-INVARIANTS TypeOK NodeHasChannel PolicyHasChannel RelayedAuthentic ZombieNotInGraph ClosedIsZombie StashOnlyUpdates
-PROPERTIES ZombieOnlyByOwner OnlyAuthenticFresh NoRelayWithoutApply PolicyMonotone NodeMonotone ChannelsStay
+INVARIANTS TypeOK NodeHasChannel PolicyHasChannel RelayedAuthentic ZombieNotInGraph ClosedNotInGraph StashOnlyUpdates
+PROPERTIES ZombieOnlyByOwner OnlyAuthenticFresh NoRelayWithoutApply RelayOnlyApplied PolicyMonotone NodeMonotone ChannelsStay
 CHECK_DEADLOCK FALSE
